@@ -1,7 +1,130 @@
-/- C15 line-protocol driver (core-only). Stub until the property's model lands. -/
+/- C15 line-protocol driver (core-only). Answers from the Model (run with the concrete secp256k1 `Curve`);
+the round-trip observations (`amtrt`, `scrrt`) are answered from the Spec (the value encoded). -/
+import BV.Common.Hex
+import BV.Common.Sha256
+import BV.C15.Model
+import BV.C15.Secp
 namespace BV.C15.Driver
+open BV.Hex BV.C15 BV.C15.Spec
+
+def C : Curve := Secp.curve
+
+def b01 (b : Bool) : String := if b then "1" else "0"
+
+def parseBool? (s : String) : Option Bool :=
+  if s == "1" then some true else if s == "0" then some false else none
+
+/-- amount:script:height:cb -/
+def showTxo (t : Txo) : String :=
+  s!"{t.amount}:{listToHexTok t.script}:{t.height}:{b01 t.coinbase}"
+
+def parseTxo? (s : String) : Option Txo :=
+  match s.splitOn ":" with
+  | [a, sc, h, cb] => do
+    let a ← a.toNat?
+    let sc ← hexToList? sc
+    let h ← h.toInt?
+    let cb ← parseBool? cb
+    pure ⟨a, sc, h, cb⟩
+  | _ => none
+
+def parseTxos? (s : String) : Option (List Txo) :=
+  if s == "-" then some [] else (s.splitOn ";").mapM parseTxo?
+
+def parseNats? (s : String) : Option (List Nat) :=
+  if s == "-" then some [] else (s.splitOn ",").mapM (fun t => t.toNat?)
+
+def showTxos (l : List Txo) : String :=
+  if l.isEmpty then "-" else ";".intercalate (l.map showTxo)
 
 def handle : List String → String
-  | _ => "unimplemented"
+  | ["vlq", n] => match n.toNat? with
+    | some n => s!"{listToHex (putVLQ n)} {serializeSizeVLQ n}"
+    | none => "bad-op"
+  | ["unvlq", h] => match hexToList? h with
+    | some b => let r := deserializeVLQ b; s!"{r.1} {r.2}"
+    | none => "bad-op"
+  | ["amtc", n] => match n.toNat? with
+    | some n => toString (compressTxOutAmount n)
+    | none => "bad-op"
+  | ["amtd", n] => match n.toNat? with
+    | some n => toString (decompressTxOutAmount n)
+    | none => "bad-op"
+  | ["amtrt", n] => match n.toNat? with
+    | some n => toString n      -- Spec: the amount encoded is the amount decoded
+    | none => "bad-op"
+  | ["scr", h] => match hexToList? h with
+    | some s => let c := putCompressedScript C s
+      s!"{listToHexTok c} {c.length} {compressedScriptSize C s}"
+    | none => "bad-op"
+  | ["scrrt", h] => match hexToList? h with
+    | some s => listToHexTok s  -- Spec: the script encoded is the script decoded
+    | none => "bad-op"
+  | ["txo", a, h] => match a.toNat?, hexToList? h with
+    | some a, some s => let c := putCompressedTxOut C a s
+      s!"{listToHexTok c} {c.length} {compressedTxOutSize C a s}"
+    | _, _ => "bad-op"
+  | ["untxo", h] => match hexToList? h with
+    | some b => match decodeCompressedTxOut C b with
+      | .ok (a, s, n) => s!"ok {a} {listToHexTok s} {n}"
+      | .err => "err"
+      | .panic => "panic"
+    | none => "bad-op"
+  | ["utxo", t, spent] => match parseTxo? t, parseBool? spent with
+    | some t, some sp => if sp then "nil" else
+        let c := serializeUtxoEntry C t
+        s!"{listToHexTok c} {utxoEntrySerializeSize C t}"
+    | _, _ => "bad-op"
+  | ["unutxo", h] => match hexToList? h with
+    | some b => match deserializeUtxoEntry C b with
+      | .ok t => s!"ok {showTxo t}"
+      | .err => "err"
+      | .panic => "panic"
+    | none => "bad-op"
+  | ["stxo", t] => match parseTxo? t with
+    | some t => let c := putSpentTxOut C t
+      s!"{listToHexTok c} {c.length} {spentTxOutSerializeSize C t}"
+    | none => "bad-op"
+  | ["unstxo", h] => match hexToList? h with
+    | some b => match decodeSpentTxOut C b with
+      | .ok (t, n) => s!"ok {showTxo t} {n}"
+      | .err => "err"
+      | .panic => "panic"
+    | none => "bad-op"
+  | ["journal", l] => match parseTxos? l with
+    | some l => listToHexTok (serializeSpendJournalEntry C l)
+    | none => "bad-op"
+  | ["unjournal", h, shape] => match hexToList? h, parseNats? shape with
+    | some b, some sh => match deserializeSpendJournalEntry C b sh with
+      | .ok l => s!"ok {showTxos l}"
+      | .err => "err"
+      | .assertErr => "assert"
+      | .panic => "panic"
+    | _, _ => "bad-op"
+  | ["best", hash, height, total, ws] => match hexToList? hash, height.toNat?, total.toNat?, hexToNat? ws with
+    | some hash, some ht, some tt, some ws =>
+      if hash.length ≠ 32 then "bad-op" else listToHex (serializeBestChainState ⟨hash, ht, tt, ws⟩)
+    | _, _, _, _ => "bad-op"
+  | ["unbest", h] => match hexToList? h with
+    | some b => match deserializeBestChainState b with
+      | .ok st => s!"ok {listToHex st.hash} {st.height} {st.totalTxns} {natToHex st.workSum}"
+      | .err => "err"
+      | .panic => "panic"
+    | none => "bad-op"
+  | ["row", ver, prev, merkle, time, bits, nonce, status, height] =>
+    match ver.toNat?, hexToList? prev, hexToList? merkle, time.toNat?, bits.toNat?, nonce.toNat?, status.toNat?, height.toNat? with
+    | some ver, some prev, some merkle, some time, some bits, some nonce, some status, some height =>
+      if prev.length ≠ 32 ∨ merkle.length ≠ 32 then "bad-op" else
+      let hd : Header := ⟨ver, prev, merkle, time, bits, nonce⟩
+      let key := natBE height 4 ++ BV.Sha256.hash2List (serializeHeader hd)
+      s!"{listToHex key} {listToHex (serializeBlockRow hd (UInt8.ofNat status))}"
+    | _, _, _, _, _, _, _, _ => "bad-op"
+  | ["unrow", h] => match hexToList? h with
+    | some b => match deserializeBlockRow b with
+      | .ok (hd, st) => s!"ok {hd.version} {listToHex hd.prev} {listToHex hd.merkle} {hd.time} {hd.bits} {hd.nonce} {st.toNat}"
+      | .err => "err"
+      | .panic => "panic"
+    | none => "bad-op"
+  | _ => "bad-op"
 
 end BV.C15.Driver
